@@ -1,9 +1,9 @@
 (* C17 -- source facts.  The machines and monitors this property rests on were written against, and validated on,
    these definitions of /repo; tools/srcfacts.py regenerates their normal-form digests on every run (coq/Gen/Src_*.v).
-   Statements only. *)
+   Statements only.  Written by `tools/srcfacts.py --props` from PROP_MODULES. *)
 From Coq Require Import List String.
-From ME Require Import Model.SrcExpected Gen.Src_map Gen.Src_common Gen.Src_fproxy Gen.Src_fnocancel
-  Proofs.Src_ok_map Proofs.Src_ok_common Proofs.Src_ok_fproxy Proofs.Src_ok_fnocancel.
+From ME Require Import Model.SrcExpected Gen.Src_map Gen.Src_common Gen.Src_fproxy Gen.Src_fnocancel Gen.Src_futures_init Gen.Src_logwrap Gen.Src_metrics_null
+  Proofs.Src_ok_map Proofs.Src_ok_common Proofs.Src_ok_fproxy Proofs.Src_ok_fnocancel Proofs.Src_ok_futures_init Proofs.Src_ok_logwrap Proofs.Src_ok_metrics_null.
 
 (* more_executors/_impl/map.py *)
 Theorem c17_source_map : Src_map.facts = expected_map.
@@ -17,8 +17,20 @@ Proof. exact src_fproxy_ok. Qed.
 (* more_executors/_impl/futures/nocancel.py *)
 Theorem c17_source_fnocancel : Src_fnocancel.facts = expected_fnocancel.
 Proof. exact src_fnocancel_ok. Qed.
+(* more_executors/_impl/futures/__init__.py *)
+Theorem c17_source_futures_init : Src_futures_init.facts = expected_futures_init.
+Proof. exact src_futures_init_ok. Qed.
+(* more_executors/_impl/logwrap.py *)
+Theorem c17_source_logwrap : Src_logwrap.facts = expected_logwrap.
+Proof. exact src_logwrap_ok. Qed.
+(* more_executors/_impl/metrics/null.py *)
+Theorem c17_source_metrics_null : Src_metrics_null.facts = expected_metrics_null.
+Proof. exact src_metrics_null_ok. Qed.
 
 Print Assumptions c17_source_map.
 Print Assumptions c17_source_common.
 Print Assumptions c17_source_fproxy.
 Print Assumptions c17_source_fnocancel.
+Print Assumptions c17_source_futures_init.
+Print Assumptions c17_source_logwrap.
+Print Assumptions c17_source_metrics_null.
